@@ -351,6 +351,16 @@ func checkEntryHops(c *Ctx) {
 				}
 				return true
 			})
+			// ... and it is that slice as a whole: result #0 of the engine, or the Hops field of the helper's result #0
+			if okProbes {
+				t := probes
+				if t.Op == "field" && t.Name == "Hops" {
+					t = t.Args[0]
+				}
+				if !(t.Op == "extract" && t.Name == "0" && len(t.Args) == 1 && t.Args[0].Op == "call") {
+					okProbes = false
+				}
+			}
 			R.Check(okProbes, "R03.4", fn+"#tohops-input", toHops.Pos(), fn, "ToHops receives the engine's result: "+desc, "ToHops receives "+desc+", not the engine's result")
 			if engParams != nil {
 				ps, es := params.String(), engParams.String()
